@@ -160,6 +160,33 @@ pub fn run(ctx: &mut Ctx) {
     });
     ctx.require(&r, &["ok_exact_product", "ok_within_band", "range_error", "nan_or_infinite_days"]);
 
+    // 4'. large offsets (beyond 2^53 µs, where a second rounding of the product costs 16-64 µs): the fraction is
+    // swept densely (every microsecond) across the half-second tie, so any extra rounding shows
+    let big_days: [f64; 7] = [104_251.0, 150_000.0, 200_000.0, 1_000_000.0, 3_000_000.0, 3_290_000.0, 3_600_000.0];
+    let tie_bases: Vec<i64> = vec![cal.min_day as i64 * US_DAY, cal.day_number(123, 4, 5) as i64 * US_DAY + 13 * US_HOUR + 17 * US_MIN + 13 * US_SEC, cal.day_number(1000, 1, 1) as i64 * US_DAY + 59 * US_SEC];
+    let tb = &tie_bases;
+    let span: i64 = 140;
+    let r = ctx.sweep_each("oracle_add_days_large_offsets_dense_ties", "3 base dates x 7 large whole-day counts x (half a second + delta µs) for every delta in -140..=140, as add_days and sub_days of the negation", 3 * 7 * (2 * span as u64 + 1), 64, |idx, acc| {
+        let delta = (idx % (2 * span as u64 + 1)) as i64 - span;
+        let kd = big_days[((idx / (2 * span as u64 + 1)) % 7) as usize];
+        let o = tb[(idx / (2 * span as u64 + 1) / 7) as usize];
+        let f = kd + (500_000 + delta) as f64 / 86_400_000_000.0;
+        acc.states += 1;
+        for (op, eff) in [(Op::OAddDays, f), (Op::OSubDays, -f)] {
+            acc.t(1);
+            acc.traces += 1;
+            let arg = if op == Op::OAddDays { f } else { -f };
+            let got = step_impl(Val::Od(o), op, Arg::F64(arg));
+            let g: Result<i64, sqldatetime::Error> = match &got { Out::V(Val::Od(v)) => Ok(*v), Out::Err(_) => Err(sqldatetime::Error::DateOutOfRange), _ => { acc.fail("C16:add_days:panic-or-wrong-kind", idx, || (format!("OracleDate({o}).{op:?}({arg:?})"), "value or error".into(), format!("{got:?}"), String::new())); continue; } };
+            let _ = eff;
+            match judge_od_add_days(o, f, &g) {
+                Ok(c) => { acc.cls(c); acc.nontrivial += 1; }
+                Err(exp) => acc.fail("C16:OracleDate:add_days:not-nearest-second-of-timestamp-result", idx, || (format!("OracleDate({o}).{op:?}({arg:?} = bits {:#018x})", arg.to_bits()), exp, format!("{got:?}"), String::new())),
+            }
+        }
+    });
+    ctx.require(&r, &["ok_within_band"]);
+
     // 5. difference in days: the correctly rounded quotient (exact for whole days)
     let firsts = [cal.min_day as i64 * US_DAY, 0, (cal.max_day as i64 + 1) * US_DAY - US_SEC];
     let np = ods.len() as u64;
